@@ -3,6 +3,7 @@ package verifrt
 import (
 	"fmt"
 	"sync"
+	"unsafe"
 )
 
 // PoolCfg describes how the simulated pool behaves during one run. Every
@@ -111,6 +112,7 @@ func poolReset(c *PoolCfg) {
 	pools = map[*sync.Pool]*simPool{}
 	plist = nil
 	bufSeq = map[uintptr]int{}
+	scratchOwner = map[uintptr]scratchRec{}
 	getIdx, putIdx, held = 0, 0, 0
 }
 
@@ -375,4 +377,54 @@ func Shadow(f func()) {
 		pcfg, pstats, pools, plist, getIdx, putIdx, held = sc, ss, sp, sl, sg, su, sh
 	}()
 	f()
+}
+
+// ---------------------------------------------------------------------------
+// Scratch ownership, independent of what implements the pool: the overlay wraps
+// the library's getDec/putDec.
+
+type scratchRec struct {
+	task int
+	ref  unsafe.Pointer // keeps the buffer alive so that its address cannot be reused while it is recorded
+}
+
+var scratchOwner = map[uintptr]scratchRec{}
+
+// ScratchStats counts hand-outs seen by the ownership monitor (evidence).
+var ScratchGets, ScratchPuts int
+
+// ScratchGet is called with the buffer getDec is about to return.
+func ScratchGet(p unsafe.Pointer) {
+	id := uintptr(p)
+	if id == 0 {
+		return
+	}
+	ScratchGets++
+	tid := -1
+	if on && cur != nil && quiet == 0 {
+		tid = cur.id
+	}
+	if own, held := scratchOwner[id]; held {
+		poolViolate(fmt.Sprintf("scratch buffer %s was handed out to task %d while task %d still holds it", bufName(id), tid, own.task))
+		return
+	}
+	scratchOwner[id] = scratchRec{tid, p}
+}
+
+// ScratchPut is called with the buffer putDec is about to release.
+func ScratchPut(p unsafe.Pointer) {
+	id := uintptr(p)
+	if id == 0 {
+		return
+	}
+	ScratchPuts++
+	if _, held := scratchOwner[id]; !held {
+		tid := -1
+		if on && cur != nil {
+			tid = cur.id
+		}
+		poolViolate(fmt.Sprintf("scratch buffer %s was released by task %d although nobody holds it (released twice?)", bufName(id), tid))
+		return
+	}
+	delete(scratchOwner, id)
 }
